@@ -219,6 +219,7 @@ impl Writer {
         let mut revert_info = BatchRevertInfo {
             original_offset: *cur_offset,
             allocated_block_ids: Vec::new(),
+            sealed_blocks: Vec::new(),
         };
 
         // Build write plan: (Block, in_block_offset, batch_index)
@@ -251,6 +252,13 @@ impl Writer {
                 let mut sealed = block.clone();
                 sealed.used = planning_offset;
                 sealed.mmap.flush()?;
+                // Remember how much of the sealed block was there before this batch
+                let valid_before = if revert_info.sealed_blocks.is_empty() {
+                    revert_info.original_offset
+                } else {
+                    0
+                };
+                revert_info.sealed_blocks.push((sealed.id, valid_before));
                 let _ = self.reader.append_block_to_chain(&self.col, sealed);
 
                 // Allocate new block
@@ -327,7 +335,7 @@ impl Writer {
                     }
                 }
 
-                *cur_offset = revert_info.original_offset;
+                *cur_offset = self.undo_sealed_blocks(&revert_info);
                 for block_id in revert_info.allocated_block_ids {
                     FileStateTracker::set_block_unlocked(block_id as usize);
                 }
@@ -410,7 +418,7 @@ impl Writer {
                 io_uring::types::Fd(fd_backend.file().as_raw_fd())
             } else {
                 // Rollback and fail
-                *cur_offset = revert_info.original_offset;
+                *cur_offset = self.undo_sealed_blocks(&revert_info);
                 for block_id in revert_info.allocated_block_ids.iter() {
                     FileStateTracker::set_block_unlocked(*block_id as usize);
                 }
@@ -515,7 +523,7 @@ impl Writer {
                     }
 
                     // Rollback
-                    *cur_offset = revert_info.original_offset;
+                    *cur_offset = self.undo_sealed_blocks(&revert_info);
                     for block_id in revert_info.allocated_block_ids.iter() {
                         FileStateTracker::set_block_unlocked(*block_id as usize);
                     }
@@ -560,7 +568,7 @@ impl Writer {
                 }
 
                 // Rollback
-                *cur_offset = revert_info.original_offset;
+                *cur_offset = self.undo_sealed_blocks(&revert_info);
                 for block_id in revert_info.allocated_block_ids.iter() {
                     FileStateTracker::set_block_unlocked(*block_id as usize);
                 }
@@ -573,6 +581,25 @@ impl Writer {
 struct BatchRevertInfo {
     original_offset: u64,
     allocated_block_ids: Vec<u64>,
+    // (block id, bytes that were valid before the batch) for every block sealed while planning
+    sealed_blocks: Vec<(u64, u64)>,
+}
+
+impl Writer {
+    /// Roll back a failed batch that sealed blocks on its way: the sealed blocks keep only what
+    /// they held before the batch, and the writer continues at the start of the block it moved
+    /// to (or at the original offset if it never left its block).
+    fn undo_sealed_blocks(&self, revert_info: &BatchRevertInfo) -> u64 {
+        for (block_id, valid_before) in revert_info.sealed_blocks.iter() {
+            self.reader
+                .truncate_sealed_block(&self.col, *block_id, *valid_before);
+        }
+        if revert_info.sealed_blocks.is_empty() {
+            revert_info.original_offset
+        } else {
+            0
+        }
+    }
 }
 
 impl Writer {
